@@ -14,3 +14,8 @@ prop("C06", "other", "x", "x", "x", ["x"], "x")
 prop("C07", "other", "x", "x", "x", ["x"], "x")
 prop("C08", "other", "x", "x", "x", ["x"], "x")
 prop("C14", "other", "x", "x", "x", ["x"], "x")
+prop("C05", "other", "x", "x", "x", ["x"], "x")
+prop("C10", "other", "x", "x", "x", ["x"], "x")
+prop("C11", "other", "x", "x", "x", ["x"], "x")
+prop("C13", "other", "x", "x", "x", ["x"], "x")
+prop("C15", "other", "x", "x", "x", ["x"], "x")
